@@ -696,7 +696,7 @@ class Mesh3D(MeshBase):
         n1 = v1.cross(v2)
 
         v3 = pts[3] - pts[2]
-        v4 = pts[1] - pts[2]
+        v4 = pts[0] - pts[2]
         n2 = v3.cross(v4)
 
         a = (n1.magnitude + n2.magnitude) / 2
